@@ -68,6 +68,8 @@ class NumpyEncoder(json.JSONEncoder):
             return data.tolist()
         if isinstance(data, list):
             return np.array(data).tolist()
+        if isinstance(data, np.generic):
+            return data.item()
         return super().default(data)
 
 class SurrogateKernel(ABC):
